@@ -6,6 +6,7 @@ use crate::engine::*;
 use crate::hist::*;
 use crate::sym::*;
 use crate::term::*;
+use slotted_egraphs::*;
 use serde_json::{json, Value};
 
 #[derive(Clone, Debug)]
@@ -205,7 +206,9 @@ pub fn ops_strings(ops: &[Op]) -> Vec<String> {
 /// compare one observation with the oracle. `sound`/`complete` select the owned directions.
 pub fn compare(obs: &Obs, e: &Expected, q: &Queries, sound: bool, complete: bool, hist: &[Op], nm: Naming, out: &mut Exec) {
     let mut opsv: Vec<String> = hist.iter().map(|o| o.show()).collect();
-    if nm != Naming::Numeric {
+    if nm == WITH_ANALYSIS {
+        opsv.push("[e-graph with the min-size analysis]".to_string());
+    } else if nm != Naming::Numeric {
         // the history is printed with the harness names; say how they were turned into slots
         opsv.push(format!("[slot naming: {nm:?}]"));
     }
@@ -233,6 +236,131 @@ pub fn compare(obs: &Obs, e: &Expected, q: &Queries, sound: bool, complete: bool
     }
 }
 
+// ---- shadowing inside one e-node -----------------------------------------------------------------
+// The multiset machinery above assumes that bound names (>= 100) never coincide with free ones.  Terms in which
+// a binder REUSES the name of a slot that is free elsewhere in the same e-node are explored here with their own,
+// simpler oracle: without parents over these terms the implied equalities are exactly alpha-equivalence (decided
+// on de-Bruijn canonical forms) closed under the asserted unions.
+
+fn shadow_decode(mut idx: u64) -> Vec<Op> {
+    let a = alphabet("SHADOW");
+    let n = a.len() as u64;
+    let mut len = 1;
+    let mut block = n;
+    while idx >= block {
+        idx -= block;
+        len += 1;
+        block *= n;
+    }
+    let mut v = Vec::new();
+    for _ in 0..len {
+        v.push(a[(idx % n) as usize].clone());
+        idx /= n;
+    }
+    v
+}
+
+fn de_bruijn(t: &T, env: &mut Vec<Name>) -> String {
+    let mut s = format!("({}", t.op);
+    for a in &t.args {
+        match a {
+            Arg::Slot(n) => match env.iter().rposition(|x| x == n) {
+                Some(i) => s += &format!(" b{}", env.len() - 1 - i),
+                None => s += &format!(" f{n}"),
+            },
+            Arg::Child(c) => {
+                s.push(' ');
+                s += &de_bruijn(c, env);
+            }
+            Arg::Bind(xs, c) => {
+                env.extend(xs.iter().copied());
+                s.push(' ');
+                s += &de_bruijn(c, env);
+                env.truncate(env.len() - xs.len());
+            }
+        }
+    }
+    s.push(')');
+    s
+}
+
+fn shadow_exec(ops: &[Op], sound: bool, complete: bool) -> Exec {
+    let mut out = Exec::default();
+    // the terms that are compared: every side of every operation of the alphabet
+    let mut terms: Vec<T> = Vec::new();
+    for o in alphabet("SHADOW") {
+        match o {
+            Op::Add(t) => terms.push(t),
+            Op::Union(l, r) => {
+                terms.push(l);
+                terms.push(r);
+            }
+        }
+    }
+    let mut canon: Vec<String> = terms.iter().map(|t| de_bruijn(t, &mut Vec::new())).collect();
+    // union-find over canonical forms, closed under the asserted unions of this history
+    let mut class: std::collections::BTreeMap<String, String> = canon.iter().map(|c| (c.clone(), c.clone())).collect();
+    for o in ops {
+        if let Op::Union(l, r) = o {
+            let (a, b) = (class[&de_bruijn(l, &mut Vec::new())].clone(), class[&de_bruijn(r, &mut Vec::new())].clone());
+            for v in class.values_mut() {
+                if *v == b {
+                    *v = a.clone();
+                }
+            }
+        }
+    }
+    for c in canon.iter_mut() {
+        *c = class[c].clone();
+    }
+    let ops2 = ops.to_vec();
+    let terms2 = terms.clone();
+    let r = fresh_thread(move || {
+        let nm = Naming::Numeric;
+        let mut eg = EGraph::<Sym>::default();
+        let mut rec = Vec::new();
+        catch(|| {
+            for o in &ops2 {
+                apply_op(&mut eg, o, nm, &mut rec);
+            }
+            let ids: Vec<AppliedId> = terms2.iter().map(|t| add_t(&mut eg, t, nm, &mut rec)).collect();
+            let mut eqs = Vec::new();
+            for i in 0..ids.len() {
+                for j in (i + 1)..ids.len() {
+                    eqs.push((i, j, eg.eq(&ids[i], &ids[j])));
+                }
+            }
+            eqs
+        })
+    });
+    out.traces = 1;
+    out.transitions = ops.len() as u64;
+    let hs = ops.iter().map(|o| o.show()).collect::<Vec<_>>().join(" ; ");
+    match r {
+        Err(site) | Ok(Err(site)) => {
+            out.aborted.push(site);
+            out.outcomes.push("aborted".into());
+        }
+        Ok(Ok(eqs)) => {
+            out.nontrivial = 1;
+            out.fps.push(fnv_str(&format!("{hs}|{:?}", eqs.iter().map(|e| e.2).collect::<Vec<_>>())));
+            let before = out.failures.len();
+            for (i, j, got) in eqs {
+                out.evaluations += 1;
+                let want = canon[i] == canon[j];
+                if got && !want && sound {
+                    out.fail("unsound", format!("{} == {}", terms[i].to_sexp(), terms[j].to_sexp()), format!("eq reported true but the terms are not alpha-equivalent and no asserted equation relates them (a bound occurrence was identified with a free one?); history: {hs}"), &ops_strings(ops));
+                }
+                if !got && want && complete {
+                    out.fail("incomplete", format!("{} == {}", terms[i].to_sexp(), terms[j].to_sexp()), format!("eq reported false but the terms are alpha-equivalent / related by the asserted equations; history: {hs}"), &ops_strings(ops));
+                }
+            }
+            out.outcomes.push(if out.failures.len() > before { "mismatch".into() } else { "agree(shadow)".into() });
+        }
+    }
+    out
+}
+
 pub struct Cong {
     pub sound: bool,
 }
@@ -255,6 +383,12 @@ fn spaces(tier: Tier) -> Vec<Space> {
             Space { alpha: "SAME", depth: 3 },
             Space { alpha: "SELFX", depth: 2 },
             Space { alpha: "SELFX", depth: 3 },
+            Space { alpha: "CASC", depth: 2 },
+            Space { alpha: "CASC", depth: 3 },
+            Space { alpha: "QSYM", depth: 3 },
+            Space { alpha: "QSYM", depth: 4 },
+            Space { alpha: "CROSS", depth: 3 },
+            Space { alpha: "CROSS", depth: 4 },
             Space { alpha: "A1", depth: 2 },
             Space { alpha: "CORE", depth: 3 },
             Space { alpha: "T3", depth: 2 },
@@ -277,6 +411,12 @@ fn spaces(tier: Tier) -> Vec<Space> {
             Space { alpha: "SAME", depth: 3 },
             Space { alpha: "SELFX", depth: 2 },
             Space { alpha: "SELFX", depth: 3 },
+            Space { alpha: "CASC", depth: 2 },
+            Space { alpha: "CASC", depth: 3 },
+            Space { alpha: "QSYM", depth: 3 },
+            Space { alpha: "QSYM", depth: 4 },
+            Space { alpha: "CROSS", depth: 3 },
+            Space { alpha: "CROSS", depth: 4 },
             Space { alpha: "T3", depth: 2 },
             Space { alpha: "BIND", depth: 2 },
             Space { alpha: "CORE", depth: 3 },
@@ -287,6 +427,7 @@ fn spaces(tier: Tier) -> Vec<Space> {
             Space { alpha: "SHARE", depth: 4 },
             Space { alpha: "SAME", depth: 4 },
             Space { alpha: "SELFX", depth: 4 },
+            Space { alpha: "CASC", depth: 4 },
             Space { alpha: "MICRO", depth: 5 },
             Space { alpha: "CORE", depth: 4 },
         ],
@@ -316,7 +457,10 @@ impl Prop for Cong {
         }
     }
     fn segments(&self, tier: Tier, _cfg: &str) -> Vec<Seg> {
-        self.segs(tier).iter().map(|s| s.seg.clone()).collect()
+        let mut v: Vec<Seg> = self.segs(tier).iter().map(|s| s.seg.clone()).collect();
+        let n = alphabet("SHADOW").len() as u64;
+        v.push(Seg { name: "SHADOW-sequences<=3".into(), count: n + n * n + n * n * n, what: format!("one index = one ordered sequence of 1-3 operations over the {n}-operation alphabet SHADOW (terms in which a binder reuses the name of a slot that is free elsewhere in the same e-node, their alpha-variants and look-alikes that are NOT alpha-equivalent); oracle: union-find over de-Bruijn canonical forms") });
+        v
     }
     fn goals(&self) -> Vec<&'static str> {
         GOAL_NAMES.to_vec()
@@ -333,11 +477,17 @@ impl Prop for Cong {
     }
     fn describe(&self, tier: Tier, _cfg: &str, seg: usize, idx: u64) -> Value {
         let segs = self.segs(tier);
+        if seg == segs.len() {
+            return json!({"sequence": shadow_decode(idx).iter().map(|o| o.show()).collect::<Vec<_>>()});
+        }
         let ops = decode(&segs[seg], idx);
         json!({"multiset": ops.iter().map(|o| o.show()).collect::<Vec<_>>()})
     }
     fn exec(&self, tier: Tier, _cfg: &str, seg: usize, idx: u64) -> Exec {
         let segs = self.segs(tier);
+        if seg == segs.len() {
+            return shadow_exec(&shadow_decode(idx), self.sound, !self.sound);
+        }
         let ops = decode(&segs[seg], idx);
         let flips = match tier {
             Tier::Quick => Flips::NoneAndAll,
@@ -346,14 +496,18 @@ impl Prop for Cong {
         // the oracle does not depend on how the harness names become slots: the cheap segments are also run with
         // slot names that look exactly like the library's next fresh slot and with textual names in reverse order
         let name = &segs[seg].seg.name;
-        let cheap = name.ends_with("^1") || ["MICRO^2", "SAME^2", "SHARE^2", "A0^2", "MICRO^3", "SAME^3"].contains(&name.as_str()) || (tier == Tier::Thorough && ["CORE^2", "BIND^2", "T3^2", "SELF^2"].contains(&name.as_str()));
+        let cheap = name.ends_with("^1") || ["MICRO^2", "SAME^2", "SHARE^2", "A0^2", "MICRO^3", "SAME^3", "CASC^2", "CASC^3"].contains(&name.as_str()) || (tier == Tier::Thorough && ["CORE^2", "BIND^2", "T3^2", "SELF^2"].contains(&name.as_str()));
         if cheap {
-            cong_exec_named(&ops, flips, self.sound, !self.sound, &[Naming::Numeric, Naming::FreshNext, Naming::TextRev])
+            // ... and with a non-trivial analysis attached (naming NumericOff(0) stands for "numeric names, min-size analysis")
+            cong_exec_named(&ops, flips, self.sound, !self.sound, &[Naming::Numeric, Naming::FreshNext, Naming::TextRev, WITH_ANALYSIS])
         } else {
             cong_exec(&ops, flips, self.sound, !self.sound)
         }
     }
 }
+
+/// pseudo-naming: numeric names, but the e-graph carries the min-size analysis
+pub const WITH_ANALYSIS: Naming = Naming::NumericOff(0);
 
 pub fn cong_exec(ops: &[Op], flips: Flips, sound: bool, complete: bool) -> Exec {
     cong_exec_named(ops, flips, sound, complete, &[Naming::Numeric])
@@ -369,6 +523,9 @@ pub fn cong_exec_named(ops: &[Op], flips: Flips, sound: bool, complete: bool, na
         let h2 = hist.clone();
         let q2 = q.clone();
         let r = fresh_thread(move || {
+            if nm == WITH_ANALYSIS {
+                return run_and_observe_n::<crate::props::equiv::MinSize>(&h2, &q2, Naming::Numeric);
+            }
             let (obs, st) = run_and_observe(&h2, &q2, nm);
             drop(st);
             obs
